@@ -511,6 +511,8 @@ impl ErdosRenyi for AdjacencyMap {
     /// * Panics if `p` isn't in `[0, 1]`.
     fn erdos_renyi(order: usize, p: f64, seed: u64) -> Self {
         #[cfg(graaf_verif)]
+        use crate::verif_seam::Arc;
+        #[cfg(graaf_verif)]
         use crate::verif_seam::{
             atomic,
             available_parallelism,
@@ -1008,6 +1010,8 @@ impl RandomTournament for AdjacencyMap {
     /// Panics if `order` is zero.
     fn random_tournament(order: usize, seed: u64) -> Self {
         #[cfg(graaf_verif)]
+        use crate::verif_seam::Arc;
+        #[cfg(graaf_verif)]
         use crate::verif_seam::{
             atomic,
             available_parallelism,
@@ -1225,6 +1229,8 @@ impl Union for AdjacencyMap {
     /// the order of `self`, `v2` is the order of `other`, and `U` is the
     /// number of arcs in the union of `self` and `other`.
     fn union(&self, other: &Self) -> Self {
+        #[cfg(graaf_verif)]
+        use crate::verif_seam::Arc;
         #[cfg(graaf_verif)]
         use crate::verif_seam::{
             atomic,
